@@ -41,12 +41,22 @@ def fill_preamble(text, repo, report_items):
             txt = X._strip_attrs_and_docs(src[s:e], rep)
             txt = X._visibility(txt)
             derive = opts.get("derive", "PartialEq,Eq,Structural,Clone,Copy")
-            txt = f"#[derive({derive.replace(',', ', ')})]\n" + txt
+            if derive != "none":
+                txt = f"#[derive({derive.replace(',', ', ')})]\n" + txt
             report_items.append({"kind": "enum", "src": path, "name": name, "bytes": [s, e], "sha256": X.sha(src[s:e]), "rewrites": rep})
         elif kind == "struct":
             s, e = X.find_item(src, "struct", name)
             txt = X.rewrite_plain(src[s:e], rep)
-            txt = re.sub(r"(\n\s*)(\w+\s*:)", r"\1pub \2", txt) if opts.get("pubfields") else txt
+            if opts.get("nodefaults"):
+                i = txt.index("{")
+                head = re.sub(r"\s*=\s*(\(\)|\w+)", "", txt[:i])
+                rep.append({"rule": "R7", "before": txt[:i].strip(), "after": head.strip()})
+                txt = head + txt[i:]
+            if opts.get("pubfields"):
+                i = txt.index("{")
+                body = re.sub(r"(\n\s*)(\w+\s*:)", r"\1pub \2", txt[i:])
+                body = body.replace("pub pub ", "pub ")
+                txt = txt[:i] + body
             if opts.get("derive"):
                 txt = f"#[derive({opts['derive'].replace(',', ', ')})]\n" + txt
             report_items.append({"kind": "struct", "src": path, "name": name, "bytes": [s, e], "sha256": X.sha(src[s:e]), "rewrites": rep})
@@ -81,6 +91,9 @@ def build(unit, repo=None, out_dir=None, canary=False):
     items = []
     pre = fill_preamble(_read(os.path.join(unit_dir, "preamble.rs")), repo, items)
     entries = load_contracts(unit_dir)
+    unit_cfg = {}
+    if os.path.exists(os.path.join(unit_dir, "unit.json")):
+        unit_cfg = json.load(open(os.path.join(unit_dir, "unit.json")))
     body = []
     functions = []
     srcs = {}
@@ -101,6 +114,10 @@ def build(unit, repo=None, out_dir=None, canary=False):
             c = dict(e)
             c["ensures"] = list(e["ensures"]) + [("__canary", "false")]
         new, markers = X.rewrite_fn(text, c, rep)
+        for pref in unit_cfg.get("path_strip", []):
+            if pref in new:
+                rep.append({"rule": "R9", "before": pref, "after": "", "count": new.count(pref)})
+                new = new.replace(pref, "")
         wrap_open, wrap_close = "", ""
         if e.get("within"):
             wrap_open = e.get("impl_header", "")
